@@ -193,3 +193,133 @@ func c13Mod1(c *Ctx) {
 		}
 	}
 }
+
+// c13Mod1Sweep: every Mod1Type x DoubleAngle in {0,1,2,3} x arcsine on/off x output scaling, through
+// mod1.Evaluator.EvaluateNew / EvaluateAndScaleNew on the stated domain ([-K+1, K-1]*Q + message, endpoints
+// included).  For SinContinuous DoubleAngle is documented as ignored: same result and depth as DoubleAngle = 0.
+//   mod1_sweep_value   scaling * (x mod 1) (through sin, and asin with the arcsine polynomial) within 2^-10
+//   mod1_sweep_depth   levels consumed = ParametersLiteral.Depth()
+//   mod1_sweep_scale   output scale = input scale
+func c13Mod1Sweep(c *Ctx) {
+	params, err := ckks.NewParametersFromLiteral(ckks.ParametersLiteral{
+		LogN:            c.Scale(7, 8),
+		LogQ:            []int{55, 60, 60, 60, 60, 60, 60, 60, 60, 60, 60, 60, 60, 53},
+		LogP:            []int{61, 61, 61, 61, 61},
+		LogDefaultScale: 45,
+	})
+	if err != nil {
+		panic(err)
+	}
+	kgen := rlwe.NewKeyGenerator(params)
+	sk := kgen.GenSecretKeyNew()
+	ecd := ckks.NewEncoder(params)
+	enc := rlwe.NewEncryptor(params, sk)
+	dec := rlwe.NewDecryptor(params, sk)
+	eval := ckks.NewEvaluator(params, rlwe.NewMemEvaluationKeySet(kgen.GenRelinearizationKeyNew(sk)))
+	scalings := []float64{1, 2}
+	if c.Thorough() {
+		scalings = []float64{1, 2, 0.5, 3}
+	}
+	for _, typ := range []mod1.Type{mod1.SinContinuous, mod1.CosDiscrete, mod1.CosContinuous} {
+		for da := 0; da <= 3; da++ {
+			for _, invDeg := range []int{0, 7} {
+				lit := mod1.ParametersLiteral{LevelQ: 12, Mod1Type: typ, LogMessageRatio: 8, K: 4, Mod1Degree: 63,
+					DoubleAngle: da, Mod1InvDegree: invDeg, LogScale: 60}
+				evm, err := mod1.NewParametersFromLiteral(params, lit)
+				if err != nil {
+					panic(err)
+				}
+				for si, scaling := range scalings {
+					if !c.Thorough() && (int(typ)+da+si+invDeg)%2 == 1 && scaling != 1 {
+						continue
+					}
+					tag := fmt.Sprintf("type=%d da=%d inv=%d scaling=%g", int(typ), da, invDeg, scaling)
+					K := evm.K - 1
+					Q := evm.QDiff * evm.MessageRatio()
+					values := make([]float64, params.MaxSlots())
+					for i := range values {
+						values[i] = math.Round((2*c13U01(c)-1)*K)*Q + (2*c13U01(c) - 1)
+					}
+					values[0], values[1], values[2], values[3] = K*Q+0.5, -K*Q-0.5, K*Q+1, -K*Q-1
+					pt := ckks.NewPlaintext(params, params.MaxLevel())
+					if err := ecd.Encode(values, pt); err != nil {
+						panic(err)
+					}
+					ct, err := enc.EncryptNew(pt)
+					if err != nil {
+						panic(err)
+					}
+					sc := rlwe.NewScale(math.Exp2(math.Round(math.Log2(float64(params.Q()[0]) / evm.MessageRatio()))))
+					sc = sc.Div(ct.Scale)
+					if err := eval.ScaleUp(ct, rlwe.NewScale(math.Round(sc.Float64())), ct); err != nil {
+						panic(err)
+					}
+					sc = evm.ScalingFactor().Div(ct.Scale)
+					sc = sc.Div(rlwe.NewScale(evm.MessageRatio()))
+					if err := eval.ScaleUp(ct, rlwe.NewScale(math.Round(sc.Float64())), ct); err != nil {
+						panic(err)
+					}
+					if err := eval.Mul(ct, 1/(evm.K*evm.QDiff), ct); err != nil {
+						panic(err)
+					}
+					if err := eval.Rescale(ct, ct); err != nil {
+						panic(err)
+					}
+					inScale := ct.Scale
+					ev := mod1.NewEvaluator(eval, ckkspoly.NewEvaluator(params, eval), evm)
+					var out *rlwe.Ciphertext
+					st := Try(func() string {
+						var e error
+						if scaling == 1 {
+							out, e = ev.EvaluateNew(ct)
+						} else {
+							out, e = ev.EvaluateAndScaleNew(ct, complex(scaling, 0))
+						}
+						if e != nil {
+							return "err"
+						}
+						return "ok"
+					})
+					c.Count(fmt.Sprintf("mod1sweep:type%d:%s", int(typ), st))
+					d := ""
+					if st != "ok" {
+						d = "status=" + st
+					} else {
+						got := make([]float64, params.MaxSlots())
+						if err := ecd.Decode(dec.DecryptNew(out), got); err != nil {
+							panic(err)
+						}
+						maxe := 0.0
+						for i := range got {
+							x := values[i] / evm.MessageRatio() / evm.QDiff
+							x = math.Sin(2 * math.Pi * x)
+							if invDeg > 0 {
+								x = math.Asin(x)
+							}
+							x = x * evm.MessageRatio() * evm.QDiff / (2 * math.Pi) * scaling
+							if e := math.Abs(got[i] - x); e > maxe || math.IsNaN(e) {
+								maxe = e
+							}
+						}
+						if !(maxe < math.Exp2(-10)*math.Max(1, scaling)) {
+							d = fmt.Sprintf("max error %g against scaling*(x mod 1)", maxe)
+						}
+					}
+					c.Probe("mod1_sweep_value", tag, "C13-mod1-value", d)
+					if st == "ok" {
+						d = ""
+						if used := lit.LevelQ - out.Level(); used != lit.Depth() {
+							d = fmt.Sprintf("%d levels consumed, Depth() = %d", used, lit.Depth())
+						}
+						c.Probe("mod1_sweep_depth", tag, "C13-mod1-depth", d)
+						d = ""
+						if out.Scale.Cmp(inScale) != 0 {
+							d = "output scale differs from the input scale"
+						}
+						c.Probe("mod1_sweep_scale", tag, "C13-mod1-scale", d)
+					}
+				}
+			}
+		}
+	}
+}
